@@ -1,5 +1,32 @@
 //@include prelude/header.rs
-// Unit completion_ctx (property C18, context part).
+// Unit completion_ctx (property C18, context part: "completion returns fixture names when, and only when, the cursor is
+// inside the signature or body of a test or fixture function or inside a usefixtures / indirect-parametrize argument
+// list ... minus names already declared as parameters ... inside a fixture - minus fixtures of narrower scope"; the
+// offered-set part is unit completion_filter).  The AST path of FixtureDatabase::get_completion_context
+// (src/fixtures/resolver.rs) on the REAL rustpython AST types (build/astspec.rs), for ALL ASTs.
+//   L1  (operational specification: prelude/completion_ctx_spec.rs)
+//       get_func_context                 opt_ccv(r) == spec_func_ctx(..)      exact: None / Signature / Body, name, line,
+//                                        is_fixture, declared = ALL parameters (posonly ++ regular ++ kwonly), scope
+//       get_function_completion_context  opt_ccv(r) == spec_first_ctx(..)     first match in statement order, class recursion; terminates
+//       cursor_inside_usefixtures_call   inside_post(..) (object level) + PROVED lemma_inside_post: r == inside_uf(..); terminates
+//       check_decorator_context          opt_ccv(r) == spec_deco_ctx(..)      decorators, pytestmark assignments, class recursion; terminates
+//       get_completion_context           opt_ccv(r) == spec_completion_ctx(content_of(file), line)   decorator > function > text fallback
+//       all_args                         the iterator yields posonlyargs ++ args ++ kwonlyargs  (and obeys vstd's iterator laws)
+//       find_enclosing_function / is_inside_function (test-only API): exact; regular parameters ONLY, no class recursion
+//   L2  prelude/completion_ctx_l2.rs (lemma_C18_*), 5 proof canaries + 1 exec canary (@as) below.
+// ASSUMED here (each stated at its stub):
+//   A-cc1 find_signature_end_line is a function `sig_end_line` of its arguments (AST ranges + text scan: not under contract)
+//   A-cc2 get_completion_context_from_text is a function `text_ctx` of (text, line) (text scanner 628-986: not under contract)
+//   A-cc3 `name.as_str().starts_with("test_")` is a function `is_test_name` of the name's text
+//   A-cc4 get_file_content / get_parsed_ast / get_line_index: functions of (database state, path) / the text / the text;
+//         the line index handed out IS a line index (PROVED for build_line_index in unit line_index)
+//   A-cc5 `Ranged::range` of Expr / Stmt is a function of the node (expr_range / stmt_range)
+//   A-cc6 std shims (prelude/completion_shims.rs): `a.chain(b)` yields a's then b's elements; `slice.iter().any(f)` for an
+//         f callable on the elements only; `slice.iter().rev().find_map(f)` (unused by /repo; decides the "last wins" variant)
+//   callee contracts PROVED elsewhere: decorators::{is_fixture_decorator, extract_fixture_scope, is_usefixtures_decorator,
+//   is_parametrize_decorator} (unit ast_helpers), get_line_from_offset (unit line_index, needs is_line_index).
+// `FixtureDatabase::all_args(args).map(..).collect()` is verified AS WRITTEN: the opaque `impl Iterator` all_args returns
+// carries the contract proved for the real all_args body in this unit (no wrapper around the call).
 use rustpython_parser::ast::{Expr, Stmt, Keyword, Identifier, Constant, ExceptHandler, ExprCall, Alias, Arguments, ArgWithDefault, Ranged};
 use rustpython_parser::text_size::TextRange;
 verus! {
@@ -90,6 +117,58 @@ impl FixtureDatabase {
 @ret r
 @sig
     ensures opt_ccv(r) == spec_completion_ctx(self.content_of(pv(file_path)), line),
+@*/
+
+    /// callee stub: the line index of a text (PROVED a line index in unit line_index; here: a function of the text)
+    #[verifier::external_body]
+    pub(crate) fn build_line_index(content: &str) -> (r: Vec<usize>)
+        ensures r@ == src_line_index(content@), is_line_index(ints(r@))
+    { unimplemented!() }
+
+/*@ extract src/fixtures/resolver.rs find_enclosing_function
+@tags C18 C12
+@ret r
+@wrapexpr 1 `func_def.name.starts_with("test_")` => `Self::vp_is_test_id1(func_def)` with fn vp_is_test_id1(func_def: &rustpython_parser::ast::StmtFunctionDef) -> (r: bool) ensures r == is_test_name(idv(&func_def.name))
+@wrapexpr 2 `func_def.name.starts_with("test_")` => `Self::vp_is_test_id2(func_def)` with fn vp_is_test_id2(func_def: &rustpython_parser::ast::StmtAsyncFunctionDef) -> (r: bool) ensures r == is_test_name(idv(&func_def.name))
+@closure map:1 |arg: &ArgWithDefault| -> (s: String) ensures s@ == pname(*arg)
+@closure map:2 |arg: &ArgWithDefault| -> (s: String) ensures s@ == pname(*arg)
+@sig
+    ensures opt_encl_v(r) == spec_enclosing(stmts@, content@, target_line),
+@loopvar 1 it
+@loop 1
+    invariant it.seq() == stmts@.as_ref(), is_line_index(ints(line_index@)), line_index@ == src_line_index(content@),
+        encl_from(stmts@, 0, target_line, line_index@) == encl_from(stmts@, it.index@ as int, target_line, line_index@),
+@loopstart 1
+    proof { let i = it.index@ as int; assert(*stmt == stmts@[i]);
+        assert(encl_from(stmts@, i, target_line, line_index@)
+            == opt_or(encl_stmt(*stmt, target_line, line_index@), encl_from(stmts@, i + 1, target_line, line_index@))); }
+@after is_fixture 1
+    proof {
+        let ds = func_def.decorator_list@;
+        if !is_fixture {
+            assert forall|i: int| 0 <= i < ds.len() implies !spec_is_fixture_decorator(&#[trigger] ds[i]) by { let y = ds.as_ref()[i]; }
+        }
+        assert(is_fixture == has_fixture_decorator(ds));
+    }
+@after is_fixture 4
+    proof {
+        let ds = func_def.decorator_list@;
+        if !is_fixture {
+            assert forall|i: int| 0 <= i < ds.len() implies !spec_is_fixture_decorator(&#[trigger] ds[i]) by { let y = ds.as_ref()[i]; }
+        }
+        assert(is_fixture == has_fixture_decorator(ds));
+    }
+@after params 1
+    proof { assert(str_views(params@) =~= regular_names(*func_def.args)); }
+@after params 3
+    proof { assert(str_views(params@) =~= regular_names(*func_def.args)); }
+@*/
+
+/*@ extract src/fixtures/resolver.rs is_inside_function
+@tags C18 C12
+@ret r
+@sig
+    ensures opt_encl_v(r) == spec_is_inside(self.content_of(pv(file_path)), line),
 @*/
 
 /*@ extract src/fixtures/resolver.rs cursor_inside_usefixtures_call
